@@ -709,6 +709,9 @@ fn same(a: &Value, b: &Value) -> bool {
 /// Compare the observation `obs` of command `cmd` with TLC's prediction `pred`.
 /// Returns Err(field) on a difference; Ok(false) if an ambiguous pop chose another entry.
 fn compare(pred: &Value, obs: &Value) -> Result<bool, String> {
+    if pred["nopred"] == true {
+        return Ok(true);
+    }
     let a = pred["a"].as_str().unwrap_or("");
     match a {
         "ring" => {
@@ -743,6 +746,9 @@ fn compare(pred: &Value, obs: &Value) -> Result<bool, String> {
                 }
                 for k in ["res", "data", "files"] {
                     if !same(&pred[k], &obs[k]) {
+                        if pred["damb"].as_bool().unwrap_or(false) {
+                            return Ok(false); // another entry with the same user_data came first
+                        }
                         return Err(k.into());
                     }
                 }
@@ -762,12 +768,24 @@ fn run_behaviour(beh: &[Value], cfg: &RunCfg) -> (Result<bool, (usize, String, V
     rec::take();
     let mut d = Direct::new(cfg);
     let mut outcome: Result<bool, (usize, String, Value)> = Ok(true);
+    // After a submit in which a cancel had several identically tagged entries to choose from, the
+    // model has one branch per choice while the code makes exactly one: a later mismatch then means
+    // "this branch is not the one the code takes" (its siblings are in the behaviour set too; the
+    // caller checks that at least one branch of every command sequence is realised).
+    let mut tainted = false;
     for (i, step) in beh.iter().enumerate() {
         let Some(cmd) = parse_cmd(step) else { continue };
         let obs = d.step(&cmd);
+        if step["camb"] == true {
+            tainted = true;
+        }
         match compare(step, &obs) {
             Ok(true) => {}
             Ok(false) => {
+                outcome = Ok(false);
+                break;
+            }
+            Err(_) if tainted => {
                 outcome = Ok(false);
                 break;
             }
@@ -783,6 +801,25 @@ fn run_behaviour(beh: &[Value], cfg: &RunCfg) -> (Result<bool, (usize, String, V
         d.entered(|| env.close_all());
     }
     (outcome, rec::take())
+}
+
+/// The consumer's commands of a behaviour without TLC's predictions (identifies the command sequence).
+fn command_key(beh: &[Value]) -> u64 {
+    use std::hash::{Hash, Hasher};
+    let mut h = std::collections::hash_map::DefaultHasher::new();
+    for s in beh {
+        for k in ["a", "r", "entries", "tag", "kind", "f", "off", "bytes", "len", "tgt", "bad", "mode", "d"] {
+            if k == "tag" && s["a"] != "push" {
+                continue; // the user_data of a popped completion is an observation, not a command
+            }
+            if let Some(v) = s.get(k) {
+                k.hash(&mut h);
+                v.to_string().hash(&mut h);
+            }
+        }
+        0u8.hash(&mut h);
+    }
+    h.finish()
 }
 
 fn replay(args: &[String]) {
@@ -808,6 +845,7 @@ fn replay(args: &[String]) {
     let mut samples: Vec<Value> = Vec::new();
     let mut sample_trace: Vec<Value> = Vec::new();
     let mut sampled = 0usize;
+    let mut branches: std::collections::HashMap<u64, (bool, usize)> = std::collections::HashMap::new();
     for (line_no, line) in text.lines().enumerate() {
         if line.trim().is_empty() {
             continue;
@@ -819,6 +857,7 @@ fn replay(args: &[String]) {
         if nt {
             nontrivial += 1;
         }
+        let key = command_key(&beh);
         let mut done = false;
         for s in 0..seeds {
             let cfg = RunCfg { fs_seed: 1 + s, ..base.clone() };
@@ -862,13 +901,37 @@ fn replay(args: &[String]) {
         }
         if !done {
             unrealised += 1;
+            branches.entry(key).or_insert((false, line_no));
+        } else {
+            branches.entry(key).or_insert((true, line_no)).0 = true;
+        }
+    }
+    // every command sequence must have a branch the code realises
+    let text_lines: Vec<&str> = text.lines().collect();
+    let mut orphan_keys = 0u64;
+    for (_, (ok, line_no)) in branches.iter() {
+        if *ok {
+            continue;
+        }
+        orphan_keys += 1;
+        divergent += 1;
+        if divergences.len() < 40 {
+            let beh: Vec<Value> = serde_json::from_str(text_lines[*line_no]).expect("behaviour json");
+            let cfg = RunCfg { fs_seed: 1, ..base.clone() };
+            // record what the code does on these commands (predictions ignored)
+            let cmds: Vec<Value> = beh.iter().map(|s| { let mut c = s.clone(); if let Some(o) = c.as_object_mut() { o.remove("camb"); o.insert("nopred".into(), json!(true)); } c }).collect();
+            let tr = util::catch(|| run_behaviour(&cmds, &cfg)).map(|(_, t)| t).unwrap_or_default();
+            let tp = format!("{traces}/div-{}.ndjson", divergences.len());
+            util::write_ndjson(&tp, &tr);
+            divergences.push(json!({"line":line_no,"what":"no branch of the model matches the code on this command sequence",
+                                    "behaviour":beh,"trace":tp,"fs_seed":1}));
         }
     }
     if sample > 0 {
         util::write_ndjson(&format!("{traces}/sample.ndjson"), &sample_trace);
     }
     let summary = json!({"behaviours":n,"realised":realised,"unrealised":unrealised,"divergent":divergent,
-                         "nontrivial":nontrivial,"panics":panics,"sampled":sampled,
+                         "nontrivial":nontrivial,"panics":panics,"sampled":sampled,"orphan_sequences":orphan_keys,
                          "divergences":divergences,"samples":samples});
     std::fs::write(&out, serde_json::to_string(&summary).unwrap()).expect("write summary");
     println!("behaviours={n} realised={realised} unrealised={unrealised} divergent={divergent} nontrivial={nontrivial}");
